@@ -3,6 +3,7 @@ package run
 import (
 	"encoding/hex"
 	"fmt"
+	"github.com/jackc/pgx/v5/pgtype"
 	"math/rand"
 	"strings"
 	"time"
@@ -103,6 +104,9 @@ func (c *Concretiser) prepScript(q M) string {
 					}
 					if _, isTime := val.(time.Time); isTime && c.Rng.Intn(3) == 0 {
 						val = otherZone(oid, val.(time.Time), c.Rng) // nor need a time be given in UTC
+					}
+					if c.Rng.Intn(5) == 0 {
+						val = pgtypeOf(oid, val) // ... or given as the pgtype value of the column's type
 					}
 					if c.Rng.Intn(4) == 0 {
 						val = pointerTo(val) // a non-nil pointer to the value is the value
@@ -459,6 +463,53 @@ func (c *Concretiser) badBytes(m M) []byte {
 }
 
 // pointerTo returns a pointer to a copy of v for the basic Go types.
+// pgtypeOf: the value as the valid pgtype value of the column's type (what handlers that scan with pgx pass on)
+func pgtypeOf(oid int, v any) any {
+	switch x := v.(type) {
+	case bool:
+		if oid == 16 {
+			return pgtype.Bool{Bool: x, Valid: true}
+		}
+	case int16:
+		if oid == 21 {
+			return pgtype.Int2{Int16: x, Valid: true}
+		}
+	case int32:
+		if oid == 23 {
+			return pgtype.Int4{Int32: x, Valid: true}
+		}
+	case int64:
+		if oid == 20 {
+			return pgtype.Int8{Int64: x, Valid: true}
+		}
+	case float32:
+		if oid == 700 {
+			return pgtype.Float4{Float32: x, Valid: true}
+		}
+	case float64:
+		if oid == 701 {
+			return pgtype.Float8{Float64: x, Valid: true}
+		}
+	case string:
+		if oid == 25 || oid == 1043 {
+			return pgtype.Text{String: x, Valid: true}
+		}
+	case time.Time:
+		if x.Location() != time.UTC {
+			return v
+		}
+		switch oid {
+		case 1082:
+			return pgtype.Date{Time: x, Valid: true}
+		case 1114:
+			return pgtype.Timestamp{Time: x, Valid: true}
+		case 1184:
+			return pgtype.Timestamptz{Time: x, Valid: true}
+		}
+	}
+	return v
+}
+
 func pointerTo(v any) any {
 	switch x := v.(type) {
 	case bool:
